@@ -36,7 +36,7 @@ import vlib
 from vlib import b2f, b2fs, f2b, fs2b
 
 ID = "C11"
-GEN = ["Params", "Leaves", "Combinators", "Wrappers", "FamiliesGen"]
+GEN = ["Params", "Leaves", "Combinators", "Wrappers", "FamiliesGen", "TriangularGen", "PermGen"]
 RULE = ("real flowjax objects (Affine, Scale, Normal, StudentT, TriangularAffine both orientations, RationalQuadraticSpline over "
         "knots/interval/softmax_adjust/min_derivative, _UnconditionalPlanar and Planar, VmapMixture, WeightNormalization built directly, "
         "_affine_with_min_scale) whose raw trainable arrays are overwritten with values from the ±50 box (all-(+50), all-(-50), "
@@ -370,6 +370,10 @@ def corr(c, tier, rng):
     # the REGENERATED constructors Affine / Scale / Loc / _StandardStudentT (Gen/FamiliesGen.lean): shape, raw stored leaves, guards
     from props import famgen
     famgen.corr(c, tier, rng, only_bij=True)
+    from props import permgen
+    permgen.corr_generated(c, tier, rng, methods=("t",))  # the GENERATED Permute constructor (Gen/PermGen.lean)
+    from props import planar_tri
+    planar_tri.corr_triangular(c, tier, rng, methods=("t",))  # incl. the GENERATED TriangularAffine (`gtriaff`) and its constructor
 
 
 # ------------------------------------------------------------------ the property's oracle on the real code
